@@ -769,9 +769,9 @@ def Dm(zmin, zmax,
     if omega_k == 0:
         return dc
     elif omega_k > 0:
-        return dh / sqrt(omega_l) * sinh(sqrt(omega_k) * dc / dh)
+        return dh / sqrt(omega_k) * sinh(sqrt(omega_k) * dc / dh)
     else:
-        return dh / sqrt(omega_l) * sin(sqrt(omega_k) * dc / dh)
+        return dh / sqrt(-omega_k) * sin(sqrt(-omega_k) * dc / dh)
 
 
 def Da(zmin, zmax,
